@@ -505,6 +505,13 @@ def secure_legs(ctx, tcptrace, prefix="", extended=False, scripts=None):
     return bool(extended and scripts and legs["dot"]["status"] == "exercised" and not res.get("violations"))
 
 
+def fresh_overlay(ctx, tag):
+    ctx.overlay_tags.add(tag)
+    ov = os.path.join(ctx.scratch, "overlay.json")
+    if os.path.exists(ov):
+        os.remove(ov)
+
+
 def run(ctx, replay):
     ctx.cov["rule"] = ("states/transitions = TLC exhaustive runs of UdpJob.tla (portable, batch+inline, mixed readers, EDNS "
                        "shapes over the job-owned writer slot) and TcpConn.tla (size classes, writer slot); evaluations = "
@@ -546,3 +553,14 @@ def run(ctx, replay):
         th.join()
     if "err" in box:
         raise box["err"]
+    # exclusive ownership on the DoH / DoH3 / DoQ listeners (FrontEnd.tla): one reply per exchange, the reply of an
+    # exchange is its own whatever else is parked on the connection; classes c06/* and fe/* are drift here
+    import x06fe
+    x06fe.ONLY = ("c10/",)
+    x06fe.run_tier(ctx)
+    # shared upstream lookups (Flight.tla): what a caller gets out of a coalesced lookup is its own id and question
+    # and a private copy; the tier's deadline / cancellation / slot classes belong to C11 and are drift here
+    import x11fl
+    x11fl.ONLY = "C10"
+    fresh_overlay(ctx, "x11fl")
+    x11fl.run_tier(ctx)
